@@ -183,7 +183,102 @@ def judge (c : Case) : Verdict :=
           (if c.bias != 0 then ["bias"] else [])
         .ok tags
 
+/-! ### The unwrappers as an Abaco channel group wires them (`NewAbacoGroup`, `demuxData`)
+
+`NewAbacoGroup(index, opt)` builds one unwrapper per channel of the group: 16 fraction bits, 4 bits
+dropped when `RescaleRaw`, enabled by `Unwrap`, bias `±round(0.38·2^16)` by `Bias`/`PulseSign`, and the
+channel is inverted iff its channel NUMBER (`index.Firstchan + i`) is listed in `InvertChan`.
+`demuxData` de-interleaves the packet payloads (frame-major) and runs every channel through its own
+unwrapper, the state carried from call to call. -/
+
+structure GOpts where
+  rescale : Bool
+  unwrap : Bool
+  bias : Bool
+  reset : Int
+  sign : Int
+  inv : List Nat
+deriving Repr
+
+/-- `AbacoUnwrapOptions.calcBiasLevel` -/
+def abacoBias (o : GOpts) : Int := if o.bias then (if o.sign < 0 then -24904 else 24904) else 0
+
+/-- the unwrapper of channel `i` of the group whose first channel number is `first` -/
+def groupMk (o : GOpts) (first i : Nat) : Option (Params × St) :=
+  mk 16 (if o.rescale then 4 else 0) o.unwrap (abacoBias o) o.reset o.sign (o.inv.contains (first + i))
+
+/-- a payload word as the 16-bit sample `demuxData` stores: `RawType(d[j])` for 16-bit payloads,
+`RawType(d[j] / 0x10000)` (Go's truncating division) for 32-bit ones -/
+def sample16 (wide : Bool) (v : Int) : Nat :=
+  if wide then (Int.tdiv v 65536 % 65536).toNat else (v % 65536).toNat
+
+/-- channel `i`'s samples of a frame-major payload of `nch` channels -/
+def demuxChan (nch i : Nat) (wide : Bool) (vals : List Int) : List Nat :=
+  (List.range (vals.length / nch)).map fun f => sample16 wide (vals.getD (f * nch + i) 0)
+
+/-- what channel `i` receives over the calls: `none` = the constructor panics -/
+def groupChan (o : GOpts) (first nch i : Nat) (wide : Bool) (calls : List (List Int)) : Option (List (List Nat)) :=
+  (groupMk o first i).map fun (p, s0) => (runCalls p s0 (calls.map (demuxChan nch i wide))).2
+
+structure GCase where
+  first : Nat
+  nch : Nat
+  o : GOpts
+  wide : Bool
+  calls : List (List Int)
+  outs : List (List (List Nat))      -- per call, per channel
+
+open P in
+def parseG : P GCase := do
+  kw "grp"
+  kw "first"; let first ← nat
+  kw "nch"; let nch ← nat
+  kw "resc"; let rescale ← P.bool
+  kw "unw"; let unwrap ← P.bool
+  kw "bias"; let bias ← P.bool
+  kw "reset"; let reset ← int
+  kw "sign"; let sign ← int
+  kw "inv"; let inv ← list nat
+  kw "wide"; let wide ← P.bool
+  kw "calls"; let calls ← list (list int)
+  kw "OUT"; let outs ← list (list (list nat))
+  pure { first, nch, o := { rescale, unwrap, bias, reset, sign, inv }, wide, calls, outs }
+
+/-- judge channel `i` of a group case -/
+def judgeChan (c : GCase) (i : Nat) : Verdict :=
+  match groupMk c.o c.first i with
+  | none => .bad "constructor panics for these options (outside the property's domain)"
+  | some (p, s0) =>
+    let ins := c.calls.map (demuxChan c.nch i c.wide)
+    let mo := (runCalls p s0 ins).2
+    let obs := c.outs.map fun call => call.getD i []
+    if mo == obs then .ok []
+    else if p.enable && p.drop != 0 then
+      if (obs.map List.length) == (ins.map List.length) && chk p s0 (ins.flatten.map (pre p)) obs.flatten then
+        .diff s!"group channel {i}: outputs differ at call {(firstDiff mo obs 0).getD 0}"
+      else .viol s!"C12 oracle (group): output of channel number {c.first + i} is not its configured (inverted, bit-dropped) input + k*quantum / step rule / reset rule"
+    else .viol s!"C12 oracle (group): with unwrapping off, channel number {c.first + i} is not its configured (inverted, bit-dropped) input"
+
+def judgeG (c : GCase) : Verdict :=
+  if c.nch == 0 then .bad "no channels" else
+  let vs := (List.range c.nch).map (judgeChan c)
+  match vs.find? (fun v => match v with | .ok _ => false | _ => true) with
+  | some v => v
+  | none =>
+    .ok (["group"] ++ (if c.o.unwrap then ["enabled"] else ["disabled"]) ++
+      (if c.first != 0 then ["first>0"] else []) ++
+      (if (List.range c.nch).any (fun i => c.o.inv.contains (c.first + i)) then ["invert"] else []) ++
+      (if c.o.inv.any (fun x => x < c.first || c.first + c.nch ≤ x) then ["inv-outside-group"] else []) ++
+      (if c.wide then ["wide"] else []) ++ (if c.calls.length > 1 then ["split"] else []) ++
+      (if c.o.bias then ["bias"] else []))
+
 def runLine (ts : List String) : Verdict :=
+  match ts with
+  | "grp" :: _ =>
+    (match P.run parseG ts with
+     | .error e => .bad e
+     | .ok c => judgeG c)
+  | _ =>
   match P.run parse ts with
   | .error e => .bad e
   | .ok c => judge c
